@@ -189,12 +189,13 @@ def body_fan(ctx, n, count, reverse, convex):
     ctx.check(tris.shape == (count, n - 2, 3, 2), 'n-2 triangles of three vertices for every n-sided polygon')
     for p in range(count):
         r = rings[p]
+        # (which triangulation is produced is not prescribed - a fan around vertex 0 today - only that it is one of
+        #  this polygon: every corner is a vertex of the polygon the triangle is reported for)
         oks = []
         for t in range(n - 2):
-            want = [r[0], r[t + 1], r[t + 2]]
             for c in range(3):
-                oks.append(And(close(tris[p, t, c, 0], want[c][0]), close(tris[p, t, c, 1], want[c][1])))
-        ctx.check(And(*oks), 'triangle t is (v0, v[t+1], v[t+2]) of its own polygon')
+                oks.append(Or(*[And(close(tris[p, t, c, 0], v[0]), close(tris[p, t, c, 1], v[1])) for v in r]))
+        ctx.check(And(*oks), 'every triangle corner is a vertex of its own polygon')
         total = 0
         for t in range(n - 2):
             total = total + area2([tuple(tris[p, t, c]) for c in range(3)])
@@ -331,6 +332,26 @@ def body_dataset(ctx, kind, after_others=False):
             ds = builders.ugrid((nodes, faces), fill='attr', start_index=1, fill_value=[999999, 0, -1, 4][which])
         else:
             ds = builders.ugrid((nodes, faces), fill='nan', start_index=which % 2)
+    elif kind == 'mesh-manysided':
+        # convex cells with every number of sides from 3 to 20 (irregular), star-shaped cells with 9 to 14 corners;
+        # the variant rotates where each ring starts and which way round it is listed
+        import math
+        nodes, faces = [], []
+        shapes = []
+        for n in range(3, 21):
+            shapes.append([(round(3.0 * n + 1.2 * math.cos(2 * math.pi * (k + 0.3 * math.sin(k + n)) / n), 6),
+                            round(0.9 * math.sin(2 * math.pi * (k + 0.3 * math.sin(k + n)) / n), 6)) for k in range(n)])
+        for n in range(9, 15):
+            shapes.append([(round(3.0 * n + (1.0 if k % 2 == 0 else 0.55) * math.cos(2 * math.pi * k / n), 6),
+                            round(5.0 + (1.0 if k % 2 == 0 else 0.55) * math.sin(2 * math.pi * k / n), 6)) for k in range(n)])
+        for ring in shapes:
+            ring = ring[which:] + ring[:which]
+            if which % 2:
+                ring = ring[::-1]
+            base = len(nodes)
+            nodes.extend(ring)
+            faces.append(list(range(base, base + len(ring))))
+        ds = builders.ugrid((nodes, faces), fill='nan', start_index=which % 2)
     elif kind == 'cf2d':
         ds = _holes_cf2d(which)
     elif kind == 'cf2d-dart':
@@ -467,7 +488,7 @@ def cases(tier):
         for reverse in (False, True):
             yield Case(f'ears:n{n}:{"rev" if reverse else "fwd"}', body_ears, dict(n=n, reverse=reverse), patches=_tri_patches,
                        max_paths=50000, split=16)
-    for kind in ('mesh', 'mesh-small', 'mesh-attr', 'cf1d-gaps', 'cf2d-misdim', 'cf2d', 'cf2d-dart', 'shoc_standard', 'cf1d', 'cf1d-int', 'sparse8') + (() if q else ('sparse16',)):
+    for kind in ('mesh', 'mesh-manysided', 'mesh-small', 'mesh-attr', 'cf1d-gaps', 'cf2d-misdim', 'cf2d', 'cf2d-dart', 'shoc_standard', 'cf1d', 'cf1d-int', 'sparse8') + (() if q else ('sparse16',)):
         yield Case(f'dataset:{kind}', body_dataset, dict(kind=kind), max_paths=20)
     yield Case('dataset:cf1d-big', body_dataset, dict(kind='cf1d-big'), max_paths=2)
     for kind in ('mesh', 'cf2d-dart'):
